@@ -46,7 +46,15 @@ EmitPlain == (done /\ Mode = "plain") =>
       PrintT(<<"VEC", ToJson([kind |-> kind, where |-> where, cls |-> c, present |-> <<>>,
                               expect |-> Unfound(kind, c), dev |-> {}])>>)
 
-Emit == (done /\ Mode # "plain") => PrintT(<<"VEC", ToJson([kind |-> kind, where |-> where,
+(* Mode = "fault": URL classes x every loader call index x fault kind (C39)  *)
+EmitFault == (done /\ Mode = "fault") =>
+   \A c \in UrlClasses, pr \in {0, 1}, fk \in {"find", "read"} : \A at \in 0..UnfoundCalls(kind, c) :
+      (pr = 1 => c = "css") =>
+      PrintT(<<"VEC", ToJson([kind |-> kind, cls |-> c, present |-> pr, fault |-> [at |-> at, kind |-> fk],
+                              calls |-> UnfoundCalls(kind, c),
+                              expect |-> FaultOutcome(kind, c, pr, at, fk)])>>)
+
+Emit == (done /\ Mode \notin {"plain", "fault"}) => PrintT(<<"VEC", ToJson([kind |-> kind, where |-> where,
                                         present |-> SetToSeq({[loc |-> p[1], idx |-> p[2]] : p \in present}),
                                         expect |-> Winner(kind, where, present, {}),
                                         dev |-> DevMap(kind, where, present)])>>)
